@@ -262,5 +262,5 @@ func runSeq(rp *explore.Report, tier string) {
 
 func init() {
 	reg.Register(&reg.Harness{Property: "C06", Name: "c06/partitions", Level: "model_checking", Run: runSeq,
-		Rule: "sequential part: every assignment of the 10 non-key fields of User/Device/Admin to services {s1,s2} (thorough: a seventh of all assignments to {s1,s2,s3}) x root-field splits x 2 data sets x 28 queries (duplicate aliases with different sub-selections at two levels, repeated and nested fragments, unions with several fragments per member, directives, arguments, nulls, empty lists, multi-hop plans); services built with schemabuilder and served through federation.Server/DirectExecutorClient behind the real Executor. Oracle: gateway JSON == the same resolvers on one server (numbers normalised); every sub-query received by a service is accepted by PrepareQuery on that service's own schema"})
+		Rule: "sequential part: every assignment of the 10 non-key fields of User/Device/Admin to services {s1,s2} (thorough: a seventh of all assignments to {s1,s2,s3}) x root-field splits x 2 data sets x " + fmt.Sprint(len(queries)) + " queries (one named fragment spread at two sites next to differing same-alias siblings, duplicate aliases with different sub-selections at two levels, repeated and nested fragments, unions with several fragments per member, directives, arguments, nulls, empty lists, multi-hop plans); services built with schemabuilder and served through federation.Server/DirectExecutorClient behind the real Executor. Oracle: gateway JSON == the same resolvers on one server (numbers normalised); every sub-query received by a service is accepted by PrepareQuery on that service's own schema"})
 }
